@@ -100,6 +100,17 @@ int main(int argc, char ** argv)
           rec(lab + "|dispatch", fmt("genbbsub('%s') consumed %zu deviates and gives %zu particles; its own scheme(s) consume %zu and give %zu", name.c_str(), da,
                                      a.get_particles().size(), db, b.get_particles().size()),
               tape, std::max(da, db), a, b);
+        // independent of the library's own dispatch guard: 212Bi / 214Bi decay either by alpha (daughter Tl, not part of the published chain) or by
+        // beta followed by the alpha of the short-lived 212Po / 214Po - every event of the published composite has exactly one alpha
+        if (name == "Bi212+Po212" || name == "Bi214+Po214") {
+          int nalpha = 0;
+          for (auto & p : a.get_particles())
+            if (p.is_alpha()) nalpha++;
+          if (nalpha != 1)
+            rec(lab + "|composite-alpha-count", fmt("an event of '%s' carries %d alpha particles: the parent's alpha branch and the polonium daughter's decay exclude each other and one of them always occurs",
+                                                    name.c_str(), nalpha),
+                tape, da, a, b);
+        }
         if (sample.empty() && i == 2) sample = "{\"tape\":" + tape.prefix_json(std::min<size_t>(da, 8)) + ",\"event\":" + event_json(a) + "}";
       }
       // the porcelain generator, once clean and once carrying stray double-beta settings (level, mode 20 / a random mode, window) that a
